@@ -1,0 +1,8 @@
+//go:build !verif
+
+// Package verifhook provides named yield points for the verification harness.
+// Without the build tag `verif` they compile to nothing.
+package verifhook
+
+// Yield is a no-op unless built with -tags verif.
+func Yield(string) {}
